@@ -19,6 +19,7 @@ pub struct Case {
 #[derive(Default)]
 pub struct Acc {
     pub counters: BTreeMap<String, u64>,
+    pub maxima: BTreeMap<String, u64>,
     pub outcomes: BTreeMap<String, u64>,
     /// clause -> (number of failing cases, minimal failing case)
     pub faults: BTreeMap<String, (u64, Case)>,
@@ -28,6 +29,10 @@ pub struct Acc {
 impl Acc {
     pub fn count(&mut self, k: &str, n: u64) {
         *self.counters.entry(k.to_string()).or_insert(0) += n;
+    }
+    pub fn maximum(&mut self, k: &str, v: u64) {
+        let e = self.maxima.entry(k.to_string()).or_insert(0);
+        *e = (*e).max(v);
     }
     pub fn outcome(&mut self, k: &str, n: u64) {
         *self.outcomes.entry(k.to_string()).or_insert(0) += n;
@@ -57,6 +62,9 @@ impl Acc {
         for (k, v) in o.outcomes {
             *self.outcomes.entry(k).or_insert(0) += v;
         }
+        for (k, v) in o.maxima {
+            self.maximum(&k, v);
+        }
         for (k, (n, c)) in o.faults {
             match self.faults.get_mut(&k) {
                 None => {
@@ -84,6 +92,9 @@ impl Acc {
         }
         for (k, v) in self.outcomes {
             rep.outcome(&k, v);
+        }
+        for (k, v) in self.maxima {
+            rep.set(&k, v);
         }
         for s in self.samples {
             rep.sample(s);
